@@ -5,7 +5,7 @@
    nodes in service is bounded by the dispatcher: a node is created only when the idle list is
    empty while a slot was reserved (C02: reservations <= limit), plus the one start() creates. *)
 From Coq Require Import List Arith.
-From VQ Require Import SlicePool SlicePoolProofs.
+From VQ Require Import SlicePool SlicePoolProofs LList LListProofs.
 Import ListNotations.
 
 (* The goroutines serving a node are exactly: one while the node is in service, plus one per
@@ -40,6 +40,15 @@ Theorem C18_jobs_conserved :
   forall s, PReachable s -> jobs_sent s = jobs_recv s + jobsq s.
 Proof. exact jobs_conserved. Qed.
 Print Assumptions C18_jobs_conserved.
+
+(* The idle list (coq/LList.v, tied to internal/linkedlist by the differential test): a node the
+   dispatcher has popped is not in the list, so the Remove of the idle-worker reaper or of Stop —
+   working from an older snapshot — answers false for it and leaves it alone; Remove answers true
+   exactly for members and takes them out. *)
+Theorem C18_remove_is_the_ownership_transfer :
+  forall l x l', LLReachable l -> ll_popback l = (Some x, l') -> fst (ll_remove l' x) = false.
+Proof. exact remove_after_popback_false. Qed.
+Print Assumptions C18_remove_is_the_ownership_transfer.
 
 (* An idle node is ready: empty channel, one goroutine waiting (plus one per unconsumed stop). *)
 Theorem C18_idle_node_is_ready :
